@@ -6,19 +6,9 @@ From NP Require Import Model.Frag Proofs.FragListP Proofs.FragHeapP Proofs.FragH
 Import ListNotations.
 Open Scope Z_scope.
 
-(* one call of Fragmentation.Process: its arguments and the value of time.Now() during the call *)
-Record call := mkCall { c_id : Z; c_first : Z; c_last : Z; c_more : bool; c_pl : list Z; c_now : Z }.
+(* [call], [step], [run], [conv], [frag_in] (one call of Fragmentation.Process, histories of calls) are
+   defined in Model/Frag.v *)
 Definition call_ok (c : call) : Prop := u16_range (c_first c) /\ u16_range (c_last c).
-Definition step (f : fstate) (c : call) : fstate * (list Z * bool * bool) :=
-  fprocess f (c_id c) (c_first c) (c_last c) (c_more c) (c_pl c) (c_now c).
-(* a history of calls: final state and the outputs (returned bytes, done, panicked) *)
-Fixpoint run (f : fstate) (cs : list call) : fstate * list (list Z * bool * bool) :=
-  match cs with
-  | [] => (f, [])
-  | c :: t => let '(f', o) := step f c in let '(f'', os) := run f' t in (f'', o :: os)
-  end.
-Definition conv (o : pres) : list Z * bool * bool := (p_res o, p_done o, false).
-Definition frag_in (c : call) : fragin := mkIn (c_first c) (c_last c) (c_more c) (c_pl c).
 Definition bytes_in (cs : list call) : Z := fold_right (fun c acc => zlen (c_pl c) + acc) 0 cs.
 
 Lemma bytes_in_cons : forall c t, bytes_in (c :: t) = zlen (c_pl c) + bytes_in t.
